@@ -2,7 +2,7 @@
    sqrt / exp are fixed rational stand-in functions; the correspondence harness installs the
    same stand-ins in place of math.sqrt / math.exp / scipy.stats on the Python side, so this
    instance checks which function is applied to which argument, exactly. *)
-From Coq Require Export QArith String List Bool ZArith.
+From Coq Require Export QArith Qround String List Bool ZArith.
 From TT Require Export lib.Base.
 Export ListNotations.
 
@@ -38,6 +38,8 @@ Definition nln (x : num) : num := qadd (qmul (nlit 7) x) (nlit 2).
 Definition nrpow (x y : num) : num := qadd (qadd (qmul (nlit 5) x) (qmul (nlit 3) y)) (nlit 7).
 Definition nofnat (n : nat) : num := inject_Z (Z.of_nat n).
 Fixpoint nharm (m : nat) : num := match m with O => nlit 0 | S k => qadd (nharm k) (qdiv (nlit 1) (nofnat (S k))) end.
+(* math.ceil *)
+Definition nceil (x : num) : num := inject_Z (Qceiling x).
 Definition nraise : num := nlit 0.
 Definition agg_wrap (a : aggregates num) : aggregates num := a.
 Definition dist_raise : dist num := mk_dist (fun _ => nlit 0) (fun _ => nlit 0) (fun _ => nlit 0) (fun _ => nlit 0).
